@@ -49,6 +49,14 @@ Definition print_Z (z : Z) : bytes := if z <? 0 then 45%N :: print_N (Z.abs_N z)
 Definition find_field (fs : list Field) (name : bytes) : option Field :=
   find (fun f => bytes_eqb (fname' f) name) fs.
 
+(* KeyLookupSerializer: only strings (below Option / newtype layers) can be looked up *)
+Fixpoint key_name (k : Value) : option bytes :=
+  match k with
+  | VStr n => Some n
+  | VSome x | VNewtypeStruct x => key_name x
+  | _ => None
+  end.
+
 (* what a string-like column stores for a scalar *)
 Definition text_of_scalar (v : Value) : IRes :=
   match v with
@@ -177,11 +185,12 @@ Fixpoint interp (f : Field) (v : Value) {struct v} : IRes :=
                             match find_field fs (fst nv) with Some sf => interp sf (snd nv) | None => IOk LNull end))
                          fields)
       | VMap kvs =>
-        (* keys must be strings (the key resolver implements serialize_str only) *)
-        if forallb (fun kv => match fst kv with VStr _ => true | _ => false end) kvs then
-          assemble fs (map (fun kv => match fst kv with
-                                      | VStr n => (n, match find_field fs n with Some sf => interp sf (snd kv) | None => IOk LNull end)
-                                      | _ => ([], IReject) end) kvs)
+        (* keys must be strings, possibly below Option / newtype layers (the key resolver implements
+           serialize_str, serialize_some and serialize_newtype_struct only) *)
+        if forallb (fun kv => match key_name (fst kv) with Some _ => true | None => false end) kvs then
+          assemble fs (map (fun kv => match key_name (fst kv) with
+                                      | Some n => (n, match find_field fs n with Some sf => interp sf (snd kv) | None => IOk LNull end)
+                                      | None => ([], IReject) end) kvs)
         else IReject
       | VTuple l | VTupleStruct l =>
         (* positions in schema order; extra elements are ignored *)
